@@ -21,7 +21,8 @@ FOOTER = (
 
 # literal pools for the constant sets (ids 1..3 of the spec's universe)
 POOLS: Dict[str, List[Any]] = {
-    "str": ["x", "y'\"\\", "z\r\n\U0001F600"],
+    # 2: quotes, backslash, non-printable characters above U+00FF and above U+FFFF; 3: CR LF, astral, and U+2028 (a line boundary for str.splitlines)
+    "str": ["x", "y'\"\\\u200b\U000e0001", "z\r\n\U0001F600\u2028w"],
     "int": [0, 7, 12345678901234567890],
     "enum": ["Lit_one", "Lit_two", "Lit_URL"],
 }
